@@ -13,7 +13,16 @@ var fieldNames = []string{"Package", "Version", "Description", "Depends", "Sourc
 
 const valAlpha = "abcdefghijklmnopqrstuvwxyzABCDEFGHIJKLMNOPQRSTUVWXYZ0123456789.,:;-_+~()<>[]=|/@#!$%&*'\"{}"
 
-func valueWord(r *core.Rand) string { return r.Str(valAlpha, r.Range(1, 9)) }
+// nonASCIIWords: names and words as they occur in real control data. Several end in a UTF-8 continuation byte
+// that would be white space if it stood alone in Latin-1 (0x85, 0xA0): à, Š, ą, 砠.
+var nonASCIIWords = []string{"à", "voilà", "Š", "AleŠ", "ą", "są", "砠", "格", "Zoë", "naïve", "é", "café", "日本語", "ř", "Ångström", "…"}
+
+func valueWord(r *core.Rand) string {
+	if r.Chance(1, 14) {
+		return r.Pick(nonASCIIWords)
+	}
+	return r.Str(valAlpha, r.Range(1, 9))
+}
 
 // LongLine is a single line longer than bufio's default 4096-byte buffer.
 func LongLine(r *core.Rand) string {
